@@ -119,7 +119,11 @@ impl<'a> LspServer<'a> {
                     }
                     self.handle_request(req);
                 }
-                lsp_server::Message::Response(_) => todo!(),
+                lsp_server::Message::Response(response) => {
+                    // This server never sends requests to the client, so there
+                    // is no request to correlate the response with.
+                    debug!("Ignoring unexpected response {:?}", response.id);
+                }
                 lsp_server::Message::Notification(notification) => {
                     self.handle_notification(&notification);
                 }
